@@ -14,8 +14,9 @@ def declare(c):
                      'rate): later handlers rely on it when they do arithmetic on those fields', floor=10)
 
 
-def path_rules(col, gcode, paths, I):
-    declare(col)
+def path_rules(col, gcode, paths, I, own=True):
+    if own:
+        declare(col)
     for p in paths:
         f = Facts(p, I)
         sig = (gcode, f.describe())
